@@ -23,7 +23,7 @@ ANCHORS = ["coxeter.shapes.polygon:Polygon.is_inside", "coxeter.shapes.circle:Ci
            "coxeter.shapes.ellipse:Ellipse.is_inside"]
 REQUIRED_MONITORS = ["Polygon.is_inside", "Circle.is_inside", "Ellipse.is_inside", "batch-vs-single"]
 REQUIRED_CLASSES = ["Polygon:cw", "Polygon:ccw", "Polygon:tilted", "Polygon:(N,2)", "Circle", "Ellipse:a<b", "Ellipse:a>b",
-                    "Ellipse:a=b", "quadrant:--", "history:aged-object"]
+                    "Ellipse:a=b", "quadrant:--", "history:aged-object", "curved:extreme-units"]
 
 
 def ncases(tier):
@@ -88,7 +88,10 @@ def setup(rec, tier):
             d = pts - c
             q = np.sqrt((d[:, 0] / ax[0]) ** 2 + (d[:, 1] / ax[1]) ** 2)
             zin = d[:, 2] == 0
-            zoff = np.abs(d[:, 2]) > 1e-3 * ax.max()
+            # off-plane points: the statement quantifies over in-plane points; a point off the plane is judged "outside" only
+            # when it is clearly off it in the shape's own units *and* beyond the absolute slack the code documents for its
+            # z comparison (np.isclose, 1e-8) - in nanometre units a half-radius offset is inside that slack and is not judged
+            zoff = (np.abs(d[:, 2]) > 1e-3 * ax.max()) & (np.abs(d[:, 2]) > 1e-6)
             inside = (q <= 1) & zin
             band = np.where(zin, np.abs(q - 1) * ax.min(), np.where(zoff, np.inf, 0.0))
             quad = ("+" if c[0] >= 0 else "-") + ("+" if c[1] >= 0 else "-")
@@ -178,6 +181,10 @@ def run_case(i, rng, rec, tier, state):
         cen, cmode = gen.center_case(rng, max(ax), dims=2)
         if rng.random() < 0.3:
             cen[2] = float(rng.uniform(-2, 2)) * max(ax)
+        u = gen.unit_factor(rng)
+        if u != 1.0:
+            ax, cen = [a * u for a in ax], cen * u
+            rec.cls("curved:extreme-units")
         s = cs.Circle(ax[0], cen) if which == "Circle" else cs.Ellipse(ax[0], ax[1], cen)
         if aged:
             info["history"] = aging.age(s, rng)
@@ -214,7 +221,7 @@ def run_case(i, rng, rec, tier, state):
     else:
         dd = pts - cen
         qq = np.sqrt((dd[:, 0] / a2[0]) ** 2 + (dd[:, 1] / a2[1]) ** 2)
-        band = np.where(dd[:, 2] == 0, np.abs(qq - 1) * min(a2), np.where(np.abs(dd[:, 2]) > 1e-3 * max(a2), np.inf, 0.0))
+        band = np.where(dd[:, 2] == 0, np.abs(qq - 1) * min(a2), np.where((np.abs(dd[:, 2]) > 1e-3 * max(a2)) & (np.abs(dd[:, 2]) > 1e-6), np.inf, 0.0))
         bsize = max(a2)
     clear = np.nonzero(band > MARGIN * bsize)[0]
     if len(clear) == 0:
